@@ -107,9 +107,15 @@ def _fp(o, out, ids, wid, depth):
                 continue
             seen.add(n)
             try:
-                v = getattr(o, n)
+                # straight from the slot / instance dict: a fingerprint must
+                # not run the object's own __getattr__ (which may fill the
+                # slot it was asked about)
+                v = object.__getattribute__(o, n)
             except AttributeError:
                 out.append('%s=<unset>' % n)
+                continue
+            except Exception:
+                out.append('%s=<unreadable>' % n)
                 continue
             out.append('%s=' % n)
             _fp(v, out, ids, wid, depth + 1)
@@ -228,8 +234,8 @@ def _mm(o, path, out, seen, depth):
             names.extend(o.__dict__.keys())
         for n in names:
             try:
-                v = getattr(o, n)
-            except AttributeError:
+                v = object.__getattribute__(o, n)
+            except Exception:
                 continue
             _mm(v, '%s.%s' % (path, n), out, seen, depth + 1)
 
